@@ -49,6 +49,7 @@ type frame struct {
 	declFrames map[*loopInfo]*declFrame
 	assertHit  map[int]bool
 	closureBindings []Val // captured cells of the closure whose contract is being applied
+	curBlock *ssa.BasicBlock // block being executed
 }
 
 // declFrame is a loop frame declared with a loop-level assigns clause.
@@ -644,6 +645,36 @@ func (f *frame) havocLoop(li *loopInfo, pre *State, guard string, entryIdx int) 
 				pats = append(pats, modPat{sort: lf.sort, base: l, steps: lf.steps})
 			}
 		}
+		// map updates / deletes inside the loop are not checked against the
+		// declared frame one by one: their cells are added to it (exactly for a
+		// loop-invariant map value, for all maps of the type otherwise), so the
+		// havoc at the loop head covers them
+		for b := range li.blocks {
+			for _, ins := range b.Instrs {
+				var mval ssa.Value
+				switch x := ins.(type) {
+				case *ssa.MapUpdate:
+					mval = x.Map
+				case *ssa.Call:
+					if bi, ok := x.Call.Value.(*ssa.Builtin); ok && (bi.Name() == "delete" || bi.Name() == "clear") && len(x.Call.Args) > 0 {
+						if _, isMap := x.Call.Args[0].Type().Underlying().(*types.Map); isMap {
+							mval = x.Call.Args[0]
+						}
+					}
+				}
+				if mval == nil {
+					continue
+				}
+				mps := vc.mapModPats(mval.Type())
+				if v, done := f.vals[mval]; done && !li.blocks[blockOf(mval)] {
+					for i := range mps {
+						mps[i].all = false
+						mps[i].base = v.T
+					}
+				}
+				pats = append(pats, mps...)
+			}
+		}
 		if f.declFrames == nil {
 			f.declFrames = map[*loopInfo]*declFrame{}
 		}
@@ -729,6 +760,7 @@ func (vc *VC) assertHeapWF(st *State, pats []modPat) {
 // execBlock runs the non-phi instructions of b.
 func (f *frame) execBlock(b *ssa.BasicBlock, in string, st *State) {
 	vc := f.vc
+	f.curBlock = b
 	for _, ins := range b.Instrs {
 		if _, ok := ins.(*ssa.Phi); ok {
 			continue
@@ -810,4 +842,12 @@ func (f *frame) setEdge(from, to *ssa.BasicBlock, guard string, st *State) {
 
 func (f *frame) runDefers(in string, st *State) {
 	// deferred calls are executed by RunDefers instructions; nothing here.
+}
+
+// blockOf: the block in which v is defined (nil for parameters, constants, globals).
+func blockOf(v ssa.Value) *ssa.BasicBlock {
+	if ins, ok := v.(ssa.Instruction); ok {
+		return ins.Block()
+	}
+	return nil
 }
